@@ -329,6 +329,10 @@ def run(ctx):
     ctx.check(ok, "ALIGN", "forsys.forsys.ForSys.build_force_matrix / ALIGN / angle_limit forwarded", ctx.where(fs),
               "angle_limit reaches ForceMatrix", "build_force_matrix does not forward angle_limit to ForceMatrix")
 
+    ctx.clause("the exclusion in force is the one of the last build: the matrix is assembled anew at every build")
+    rules.fresh_build(ctx, "force")
+
+
 
 _P, _S = "forsys/fmatrix.py", "forsys/forsys.py"
 PINNED = [
